@@ -22,6 +22,7 @@ boolean / string / numeric expressions on which the C16 theorems turn and which 
     k_(e)gmap_default_units_to/_from  defaults of vrnt_genpos_units of the writers / readers (a default/default round trip mixes them)
     k_(e)gmap_ctor_passes_kind/_fill  does `__init__` hand self.spline_kind / self.spline_fill_value to build_spline?  + build_spline defaults
     k_egmap_default_name_col_to/_from, k_egmap_file_header, k_egmap_file_optional   column names written by to_egmap / expected by from_egmap
+    k_egmap_optional_read             when from_egmap reads an optional column: over `'<name>' in df.columns` and `df['<name>'].notna().any()`
   from_pandas of both map classes, DenseCoancestryMatrix, DenseBreedingValueMatrix
     k_col_select          one row per `df[A] if isinstance(B, str) else df.iloc[:, C]` / `get_loc(A) if isinstance(B, str) else C`
   DenseTwoWayDHAdditiveGeneticVarianceMatrix
@@ -373,15 +374,31 @@ def gmap_api_kernels(repo, defs):
     for name, ix in (("vrnt_chrgrp_col", 0), ("vrnt_phypos_col", 1), ("vrnt_stop_col", 2), ("vrnt_genpos_col", 3)):
         if src(kw.get(name, ast.Name(id="?"))) != str(ix): raise U("from_egmap: %s = %s" % (name, src(kw.get(name, ast.Name(id="?")))))
     if src(kw.get("vrnt_genpos_units", ast.Name(id="?"))) not in ("'M'", "'Morgans'"): raise U("from_egmap: units")
-    expected = []
+    # <ix> if <test over `'<name>' in df.columns` and, possibly, `df['<name>'].notna().any()`> else None      (ix = 4, 5)
+    expected = []; conds = {}
     for name, ix in (("vrnt_name_col", 4), ("vrnt_fncode_col", 5)):
         e = kw.get(name)
-        if not (isinstance(e, ast.IfExp) and src(e.body) == str(ix) and src(e.orelse) == "None" and isinstance(e.test, ast.Compare) and len(e.test.ops) == 1
-                and isinstance(e.test.ops[0], ast.In) and src(e.test.comparators[0]) == "df.columns" and isinstance(e.test.left, ast.Constant) and isinstance(e.test.left.value, str)):
+        if not (isinstance(e, ast.IfExp) and src(e.body) == str(ix) and src(e.orelse) == "None"):
             raise U("from_egmap: %s = %s" % (name, src(e) if e is not None else None))
-        expected.append(e.test.left.value)
+        heads = [n for n in ast.walk(e.test) if isinstance(n, ast.Compare) and len(n.ops) == 1 and isinstance(n.ops[0], ast.In)
+                 and src(n.comparators[0]) == "df.columns" and isinstance(n.left, ast.Constant) and isinstance(n.left.value, str)]
+        if len(heads) != 1: raise U("from_egmap: %s: expected exactly one `'<name>' in df.columns` in %s" % (name, src(e.test)))
+        col = heads[0].left.value
+        table = {src(heads[0]): "in_header"}
+        filled = "df[%r].notna().any()" % col
+        if any(src(n) == filled for n in ast.walk(e.test)): table[filled] = "has_value"
+        t2 = bind(e.test, table)
+        if not set(P.names_in(t2)) <= {"in_header", "has_value"}:
+            raise U("from_egmap: %s: the test %s is not over `%s` / `%s` alone" % (name, src(e.test), src(heads[0]), filled))
+        term = P.to_coq(t2, P.Ctx("Z", {}, bool_env={"in_header": "in_header", "has_value": "has_value"}), "bool")
+        conds.setdefault(term, []).append(src(e))
+        expected.append(col)
+    if len(conds) != 1: raise U("from_egmap: the two optional columns are admitted under different conditions: %s" % sorted(conds.values()))
+    (term, texts), = conds.items()
     defs.append(P.definition("k_egmap_file_optional", [], "list String.string", slist(expected),
-                             "from_egmap: the optional columns 4 and 5 are read only if the header has these names"))
+                             "from_egmap: the optional columns 4 and 5 are looked for under these header names"))
+    defs.append(P.definition("k_egmap_optional_read", [("in_header", "bool"), ("has_value", "bool")], "bool", term,
+                             "from_egmap: %s   [in_header = '<name>' in df.columns, has_value = df['<name>'].notna().any()]" % " ; ".join(texts)))
 
 
 # ------------------------------------------------------------------------------------------------ column selection of the table readers
